@@ -20,7 +20,14 @@ PROP = dict(
          "(500-2600 ms) while the stream arrives, across a panel drop, across a reader fault, with the cancellation inside the pause; "
          "message lists offered on msgsToPanel during the retry wait after a loss (100/400/800 ms into it, periods default, 2, 3 s, "
          "both modes, unbuffered and buffered channel, 3-30 lists), during the ASCII EOF sleep, across the reconnect, with cancellation "
-         "inside the wait, and 40-60 lists of 20-50 kB across two losses (writer inside conn.Write when the connection goes); plus n "
+         "inside the wait, and 40-60 lists of 20-50 kB across two losses (writer inside conn.Write when the connection goes); "
+         "every way an ASCII panel answers the probe (script key reply=: silence, RDY, map line, other text, ErrorMsg line "
+         "handing an error text to onconnect) x loss before any byte / at a line boundary / inside a line, 1-3 cycles, cancellation while "
+         "connected, at onconnect, in the EOF sleep, in the retry sleep, traffic in the retry wait, pausing consumer (all of them for ErrorMsg, "
+         "three for the others; random scripts draw the reply class); ASCII streams with a line of 4094/4095/4096/4097/9000 bytes and binary "
+         "streams with a frame of 4092/4096/9000 bytes (reader-buffer boundaries; 64 KiB lines are sent by C08/C10: the LTS simulation is fed "
+         "byte by byte) held, dropped after the stream, dropped right after and one byte before the end of the long frame; "
+         "plus n "
          "random scripts (loss kind, pause, traffic drawn at random). EQ = the observed trace is accepted by the LTS (set-of-states "
          "simulation; the panel's bytes fed one by one, the model clock following the trace timestamps; the goroutine census taken "
          "just before the cancellation is bounded by the goroutines the model has alive, and the panel sees connection k closing no "
